@@ -1091,7 +1091,35 @@ func c19ResolverIn(c *Ctx) {
 	if len(ips) != 1 {
 		ok, why = false, "the host is not validated as an IP address"
 	}
-	c.Check(ok, key, rule, "default :53; SplitHostPort, ParseUint(…,16), ParseIP checked", why, c.fnAt(fn))
+	// every listed address is used: an iteration ends by keeping the normalised address (element store
+	// or append) or by returning the error — none is dropped on the way (de-duplication by host alone
+	// would drop the second of two servers on one IP with different ports)
+	if ok && len(ips) == 1 {
+		header := loopHeaderOf(liftBlock(ips[0].Block(), fn))
+		if header == nil {
+			ok, why = false, "the addresses are not validated in a loop over the list"
+		} else {
+			keep := func(i ssa.Instruction) bool {
+				if st, isSt := i.(*ssa.Store); isSt {
+					if _, isIA := st.Addr.(*ssa.IndexAddr); isIA {
+						return true
+					}
+				}
+				return isCallTo(i, "builtin:append")
+			}
+			for _, succ := range header.Succs {
+				if loopHeaderOf(succ) != header && succ != header {
+					continue
+				}
+				for i := range exploreBlock(succ, keep) {
+					if i.Block() == header && !keep(i) {
+						ok, why = false, "an iteration can go on to the next address without keeping this one: a listed resolver is never used"
+					}
+				}
+			}
+		}
+	}
+	c.Check(ok, key, rule, "default :53; SplitHostPort, ParseUint(…,16), ParseIP checked; every address kept", why, c.fnAt(fn))
 }
 
 // ---- manual agreement ------------------------------------------------------
